@@ -17,17 +17,29 @@ package main
 // obs   : steps=<ev>|<ev>…><res>;…  views=serial:mark,…      | regpanic
 
 import (
+	"context"
+	"errors"
 	"fmt"
 	"math/rand"
 	"reflect"
+	"regexp"
+	"sort"
 	"strconv"
 	"strings"
 	"sync"
+	"time"
 
 	"verifharness/drv"
 
+	"github.com/yandex/pandora/core"
+	"github.com/yandex/pandora/core/config"
+	"github.com/yandex/pandora/core/engine"
 	"github.com/yandex/pandora/core/plugin"
 	"github.com/yandex/pandora/core/plugin/pluginconfig"
+	"github.com/yandex/pandora/core/register"
+	"github.com/yandex/pandora/core/schedule"
+	"github.com/yandex/pandora/lib/monitoring"
+	"go.uber.org/zap"
 )
 
 // the default registry and the config package's hook table are process-global
@@ -41,9 +53,27 @@ type comp struct {
 	serial int
 	cfg    *Conf
 	seen   Conf
+	w      *world
+	binds  int
 }
 
 func (c *comp) Serial() int { return c.serial }
+
+// core.Gun (engine path): Bind counts how many instances this gun was given to
+func (c *comp) Bind(core.Aggregator, core.GunDeps) error {
+	c.w.mu.Lock()
+	defer c.w.mu.Unlock()
+	c.binds++
+	c.w.bound++
+	if c.w.bound == c.w.inst && c.w.allBound != nil {
+		close(c.w.allBound)
+	}
+	return nil
+}
+func (c *comp) Shoot(core.Ammo) {}
+
+// Other is a struct that is no config of anything and implements nothing
+type Other struct{ X int }
 
 type tErr struct {
 	kind string
@@ -56,6 +86,7 @@ var (
 	confT  = reflect.TypeOf(Conf{})
 	pconfT = reflect.TypeOf(&Conf{})
 	ifaceT = reflect.TypeOf((*Iface)(nil)).Elem()
+	gunT   = reflect.TypeOf((*core.Gun)(nil)).Elem()
 	implT  = reflect.TypeOf(&comp{})
 	errT   = reflect.TypeOf((*error)(nil)).Elem()
 )
@@ -82,6 +113,16 @@ type world struct {
 	evs                 []string
 	steps               []string
 	products            []*comp
+	plugT               reflect.Type // the plugin interface: Iface, or core.Gun on the engine path
+	bad                 bool         // hook / engine path: the user's settings do not decode
+	decodeFails         int
+	// engine path (constructors are called from several goroutines there: everything above is guarded by mu)
+	mu       sync.Mutex
+	inst     int
+	bound    int
+	scheds   int
+	allBound chan struct{}
+	release  chan struct{}
 }
 
 func (w *world) id(p *Conf) string {
@@ -101,6 +142,8 @@ func okc(b bool) string {
 }
 
 func (w *world) fill(conf interface{}) error {
+	w.mu.Lock()
+	defer w.mu.Unlock()
 	i := w.fills
 	w.fills++
 	addr := "?"
@@ -133,7 +176,7 @@ func (w *world) fill(conf interface{}) error {
 
 // build makes a component from the constructor's (or the closure's captured) argument.
 func (w *world) build(serial int, arg []reflect.Value) *comp {
-	c := &comp{serial: serial}
+	c := &comp{serial: serial, w: w}
 	if len(arg) == 1 {
 		switch v := arg[0].Interface().(type) {
 		case Conf:
@@ -177,7 +220,7 @@ func (w *world) constructor() interface{} {
 	}
 	prodT := implT
 	if sh.iface {
-		prodT = ifaceT
+		prodT = w.plugT
 	}
 	prodOut := func(c *comp) reflect.Value {
 		if c == nil {
@@ -191,6 +234,8 @@ func (w *world) constructor() interface{} {
 			out = append(out, errT)
 		}
 		return reflect.MakeFunc(reflect.FuncOf(in, out, false), func(arg []reflect.Value) []reflect.Value {
+			w.mu.Lock()
+			defer w.mu.Unlock()
 			i := w.ctors
 			w.ctors++
 			fail := sh.ctorErr && w.cf[i]
@@ -215,6 +260,8 @@ func (w *world) constructor() interface{} {
 		out = append(out, errT)
 	}
 	return reflect.MakeFunc(reflect.FuncOf(in, out, false), func(arg []reflect.Value) []reflect.Value {
+		w.mu.Lock()
+		defer w.mu.Unlock()
 		i := w.ctors
 		w.ctors++
 		fail := sh.ctorErr && w.cf[i]
@@ -224,6 +271,8 @@ func (w *world) constructor() interface{} {
 		}
 		captured := append([]reflect.Value(nil), arg...)
 		fac := reflect.MakeFunc(facT, func([]reflect.Value) []reflect.Value {
+			w.mu.Lock()
+			defer w.mu.Unlock()
 			j := w.facts
 			w.facts++
 			ffail := sh.factErr && w.rf[j]
@@ -245,20 +294,26 @@ func (w *world) constructor() interface{} {
 	}).Interface()
 }
 
+func (w *world) logD() {
+	w.mu.Lock()
+	w.evs = append(w.evs, "D")
+	w.mu.Unlock()
+}
+
 func (w *world) defaultFn() []interface{} {
 	d := w.d
 	switch w.sh.dflt {
 	case 'f':
 		if w.sh.cfg == 's' {
-			return []interface{}{func() Conf { w.evs = append(w.evs, "D"); return Conf{A: d[0], B: d[1], C: d[2]} }}
+			return []interface{}{func() Conf { w.logD(); return Conf{A: d[0], B: d[1], C: d[2]} }}
 		}
-		return []interface{}{func() *Conf { w.evs = append(w.evs, "D"); return &Conf{A: d[0], B: d[1], C: d[2]} }}
+		return []interface{}{func() *Conf { w.logD(); return &Conf{A: d[0], B: d[1], C: d[2]} }}
 	case 'n':
-		return []interface{}{func() *Conf { w.evs = append(w.evs, "D"); return nil }}
+		return []interface{}{func() *Conf { w.logD(); return nil }}
 	case 's':
 		sp := &Conf{A: d[0], B: d[1], C: d[2]}
 		w.id(sp) // identity 0, owned by the default-config function from registration on
-		return []interface{}{func() *Conf { w.evs = append(w.evs, "D"); return sp }}
+		return []interface{}{func() *Conf { w.logD(); return sp }}
 	}
 	return nil
 }
@@ -267,6 +322,11 @@ func (w *world) resOf(p interface{}, err error) string {
 	if err != nil {
 		if te, ok := err.(*tErr); ok {
 			return "err." + te.Error()
+		}
+		if w.bad {
+			// the real decoder refused the user's settings: the i-th such failure is the i-th fillConf invocation
+			w.decodeFails++
+			return "err.fill" + strconv.Itoa(w.decodeFails-1)
 		}
 		return "err.other:" + drv.Clean(err.Error())
 	}
